@@ -59,7 +59,7 @@ type Reader struct {
 
 	opCode ws.OpCode                  // Used to store message op code on fragmentation.
 	frame  io.Reader                  // Used to as frame reader.
-	raw    io.LimitedReader           // Used to discard frames without cipher.
+	raw    limitedReader              // Used to discard frames without cipher.
 	utf8   UTF8Reader                 // Used to check UTF8 sequences if CheckUTF8 is true.
 	tmp    [ws.MaxHeaderSize - 2]byte // Used for reading headers.
 	cr     *CipherReader              // Used by NextFrame() to unmask frame payload.
@@ -192,7 +192,7 @@ func (r *Reader) NextFrame() (hdr ws.Header, err error) {
 
 	// Save raw reader to use it on discarding frame without ciphering and
 	// other streaming checks.
-	r.raw = io.LimitedReader{
+	r.raw = limitedReader{
 		R: r.Source,
 		N: hdr.Length,
 	}
@@ -251,19 +251,44 @@ func (r *Reader) NextFrame() (hdr ws.Header, err error) {
 	return hdr, err
 }
 
+// limitedReader is like io.LimitedReader, except that it reports
+// io.ErrUnexpectedEOF when the source ends before N bytes have been read.
+// That is, a frame payload cut by the peer or by the transport is never
+// mistaken for a complete one – neither by Read() nor by Discard() nor by
+// handlers of intermediate control frames.
+type limitedReader struct {
+	R io.Reader // underlying reader
+	N int64     // max bytes remaining
+}
+
+func (l *limitedReader) Read(p []byte) (n int, err error) {
+	if l.N <= 0 {
+		return 0, io.EOF
+	}
+	if int64(len(p)) > l.N {
+		p = p[0:l.N]
+	}
+	n, err = l.R.Read(p)
+	l.N -= int64(n)
+	if err == io.EOF && l.N > 0 {
+		err = io.ErrUnexpectedEOF
+	}
+	return n, err
+}
+
 func (r *Reader) fragmented() bool {
 	return r.State.Fragmented()
 }
 
 func (r *Reader) resetFragment() {
-	r.raw = io.LimitedReader{}
+	r.raw = limitedReader{}
 	r.frame = nil
 	// Reset source of the UTF8Reader, but not the state.
 	r.utf8.Source = nil
 }
 
 func (r *Reader) reset() {
-	r.raw = io.LimitedReader{}
+	r.raw = limitedReader{}
 	r.frame = nil
 	r.utf8 = UTF8Reader{}
 	r.opCode = 0
